@@ -580,7 +580,8 @@ class LocalEngine(BaseEngine):
         for p in program_lst:
             for c in p.circuit or []:
                 try:
-                    if c.op.select and eng_run_options["shots"] > 1:
+                    # NOTE: `select=0` (or 0.0) is a post-selection too, so test for None, not truth
+                    if c.op.select is not None and eng_run_options["shots"] > 1:
                         raise NotImplementedError(
                             "Post-selection cannot be used together with multiple shots."
                         )
